@@ -51,6 +51,7 @@ fn main() {
                 workers: std::thread::available_parallelism().map(|n| n.get()).unwrap_or(4).min(16),
                 deadline_secs: if tier == Tier::Quick { 240 } else { 3000 },
                 no_evidence: false,
+                only_world: None,
             };
             let mut i = 4;
             while i < args.len() {
@@ -72,6 +73,12 @@ fn main() {
                         i += 1;
                     }
                     "--no-evidence" => check.no_evidence = true,
+                    "--world" => {
+                        // sensitivity / debugging only: evidence is not written for a partial check
+                        check.only_world = args.get(i + 1).cloned();
+                        check.no_evidence = std::env::var_os("VERIF_EVIDENCE_DIR").is_none();
+                        i += 1;
+                    }
                     _ => {}
                 }
                 i += 1;
@@ -191,21 +198,23 @@ fn main() {
             let prop = args[2].clone();
             let n: u64 = args.get(3).and_then(|s| s.parse().ok()).unwrap_or(200);
             let start: u64 = args.get(4).and_then(|s| s.parse().ok()).unwrap_or(0);
-            let world = worlds.iter().find(|w| w.properties.contains(&prop.as_str())).expect("world");
             core::set_quiet(true);
             let seed = env_seed();
             let ctx = Ctx { prop: prop.clone(), tier: Tier::Quick, avoid: vec![] };
             for index in start..start + n {
-                let mut src = Src::record(run_seed(seed, world.name, &prop, index));
-                src.enable_trace();
-                let outcome = run_one(world, &ctx, &mut src);
-                let trace = src.take_trace();
-                let o = match outcome {
-                    Outcome::Ok => "ok".to_string(),
-                    Outcome::Violation(v) => v.key(),
-                    Outcome::HarnessError(e) => format!("HARNESS:{e}"),
-                };
-                println!("{} {:016x} {:016x} {} {}", index, worker::trace_hash(&trace), src.sig, src.used.len(), o);
+                // every world that serves the property
+                for world in worlds.iter().filter(|w| w.properties.contains(&prop.as_str())) {
+                    let mut src = Src::record(run_seed(seed, world.name, &prop, index));
+                    src.enable_trace();
+                    let outcome = run_one(world, &ctx, &mut src);
+                    let trace = src.take_trace();
+                    let o = match outcome {
+                        Outcome::Ok => "ok".to_string(),
+                        Outcome::Violation(v) => v.key(),
+                        Outcome::HarnessError(e) => format!("HARNESS:{e}"),
+                    };
+                    println!("{} {} {:016x} {:016x} {} {}", index, world.name, worker::trace_hash(&trace), src.sig, src.used.len(), o);
+                }
             }
             0
         }
